@@ -150,7 +150,14 @@ def build(cfg, W):
     H = type('H', (base,), attrs)
     handler = H(reraise_uncaught=True) if cfg['handler'] == 'reraise' else H()
     mw = Mw()
-    routes = [Route('/r/<beh>/<pos>/<n>', endpoint, render, middlewares=[mw]),
+    def m_get():
+        return Response('answered-by-get-route')
+
+    def m_post():
+        return Response('answered-by-post-route')
+    from clastic import GET, POST
+    routes = [GET('/m', m_get), POST('/m', m_post),
+              Route('/r/<beh>/<pos>/<n>', endpoint, render, middlewares=[mw]),
               Route('/n/<beh>/<pos>/<n>', endpoint, middlewares=[mw])]
     return Application(routes, error_handler=handler)
 
@@ -160,6 +167,9 @@ def one_request(app, W, beh, pos, n, accept, method='GET'):
     use_norender = (pos in ('ep', 'epmwBefore', 'epmwAfter') and beh == 'nonresp') or (pos in ('ep', 'rqmwBefore', 'rqmwAfter', 'epmwBefore', 'epmwAfter')
                                                              and beh != 'ctx' and n % 2 == 1)
     path = '/%s/%s/%s/%d' % ('n' if use_norender else 'r', beh, pos, n)
+    if beh in ('mGet', 'mPost', 'mWrong'):
+        path = '/m'
+        method = {'mGet': 'GET', 'mPost': 'POST', 'mWrong': ['PUT', 'DELETE', 'PATCH'][n % 3]}[beh]
     headers = {'Accept': accept} if accept else {}
     env = create_environ(path, method=method, headers=headers)
     W.raised = None
@@ -173,7 +183,8 @@ def one_request(app, W, beh, pos, n, accept, method='GET'):
         same = e is W.raised
         return {'k': 'escape', 'cls': type(e).__name__, 'same_object': same, 'msg': repr(e)[:200] if not isinstance(e, (BadRepr,)) else 'BadRepr'}
     code = int(status.split()[0])
-    return {'k': 'status', 'code': code, 'len': len(body), 'own': W.http.code if W.http else None}
+    by = 'get' if b'answered-by-get-route' in body else ('post' if b'answered-by-post-route' in body else None)
+    return {'k': 'status', 'code': code, 'len': len(body), 'own': W.http.code if W.http else None, 'by': by}
 
 
 def judge(exp, obs):
@@ -193,7 +204,13 @@ def judge(exp, obs):
     if st.startswith('otherOrSame:'):
         allowed.add(410)
         st = st.split(':', 1)[1]
-    if st == 'ok':
+    if st.startswith('ok:'):
+        if obs.get('by') != st[3:]:
+            return 'answered-by-wrong-route:%s->%s' % (st[3:], obs.get('by'))
+        allowed.add(200)
+    elif st == '405':
+        allowed.add(405)
+    elif st == 'ok':
         allowed.add(200)
     elif st == '500':
         allowed.add(500)
